@@ -47,6 +47,7 @@ def differential(rep, cases, info_on, info_off):
 def run(rep):
     rng = random.Random(rep.seed)
     quick = rep.tier == "quick"
+    P.replay_witnesses(rep, PID)
     rep.rule = ("S->I: the MC_Peg 'mods' universe (rules with noskipws / ws modifiers, eolterm repetitions, with and "
                 "without a Comment rule: rules reachable under different whitespace modes) and 'ops' universe, each "
                 "grammar parsed with memoization on and off; I->S: seeded-random grammars with many rule modifiers. "
